@@ -21,7 +21,7 @@ MOD = "mc.props.C15"
 
 ACTIONS = [
     "full", "mesh_only", "part_only", "sink_only", "value_pred", "box", "level_le_2", "cpu_list_2",
-    "sortby_part", "mesh_vars", "part_vars", "box_far_corner", "groups_off_mesh",
+    "sortby_part", "sortby_sink", "sortby_mesh", "mesh_vars", "part_vars", "box_far_corner", "groups_off_mesh",
 ]
 
 
@@ -41,7 +41,11 @@ def make_output(variant=0):
     out = M1.Output(tree, ncpu=3, owner=owner, ghosts=ghosts, bound_key=bk, unit_d=2.0, unit_l=3.0, unit_t=5.0,
                     boxlen=2.0, hydro="rvp", grav=False)
     out.part = M1.make_part(M1.part_descriptor(ndim), [2, 3, 1])
-    out.sink = M1.make_sink(ndim, 2)
+    out.sink = M1.make_sink(ndim, 3)
+    # a column whose order is not the file order, so that a sorted table differs from the stored one
+    lev = out.sink["keys"].index("level")
+    for r, v in enumerate([3.0, 1.0, 2.0]):
+        out.sink["rows"][r][lev] = v
     return out
 
 
@@ -77,6 +81,10 @@ def action_kwargs(name, out):
         return {"cpu_list": [2]}
     if name == "sortby_part":
         return {"sortby": {"part": "identity"}}
+    if name == "sortby_sink":
+        return {"sortby": {"sink": "level"}}
+    if name == "sortby_mesh":
+        return {"sortby": {"mesh": "density"}}
     if name == "mesh_vars":
         return {"select": {"mesh": ["density", "position_x", "position_y", "position_z", "level"]}}
     if name == "part_vars":
@@ -132,6 +140,14 @@ class Spec:
                 info["variables"] = {k: bool(v["read"]) for k, v in r.variables.items()}
             if hasattr(r, "cpu_list"):
                 info["cpu_list"] = None if r.cpu_list is None else [int(c) for c in r.cpu_list]
+            # any other plain attribute of the reader is state too (caches, flags): finer canonical form, never coarser
+            for k, v in vars(r).items():
+                if k in ("initialized", "variables", "cpu_list", "kind") or k in info:
+                    continue
+                if isinstance(v, (bool, int, float, str, type(None), tuple)):
+                    info["attr:" + k] = repr(v)
+                elif isinstance(v, (dict, list, set)) and k.startswith("_"):
+                    info["attr:" + k] = [len(v), sorted(repr(x)[:80] for x in v)]
             readers[name] = info
         meta = {}
         for k, v in ds.meta.items():
@@ -195,7 +211,7 @@ def make_spec(name, params):
 
 
 def run(ctx):
-    acts = ACTIONS if ctx.thorough else ACTIONS[:11]
+    acts = ACTIONS if ctx.thorough else ACTIONS[:13]
     depth = 4 if ctx.thorough else 3
     und = 3 if ctx.thorough else 2
     covs, accs = [], []
